@@ -89,7 +89,10 @@ from beartype._data.func.datafuncarg import ARG_NAME_RETURN
 from beartype._data.typing.datatyping import LexicalScope
 from beartype._data.typing.datatypingport import Hint
 from beartype._util.error.utilerrraise import reraise_exception_placeholder
-from beartype._util.error.utilerrwarn import reissue_warnings_placeholder
+from beartype._util.error.utilerrwarn import (
+    catch_warnings_lock,
+    reissue_warnings_placeholder,
+)
 from beartype._util.func.arg.utilfuncargiter import (
     ArgKind,
     iter_func_args,
@@ -319,7 +322,7 @@ def code_check_args(decor_func: BeartypeCallDecorFuncData) -> str:
 
             # With a context manager "catching" *ALL* non-fatal warnings issued
             # during this logic for subsequent "playback" below...
-            with catch_warnings(record=True) as warnings_issued:
+            with catch_warnings_lock, catch_warnings(record=True) as warnings_issued:
                 # Sane hint sanified from this possibly insane parameter hint if
                 # sanifying this hint generated no supplementary metadata *OR*
                 # that metadata otherwise. Additionally, if this hint is
